@@ -23,6 +23,7 @@ import (
 	"time"
 
 	"github.com/samsarahq/thunder/concurrencylimiter"
+	"github.com/samsarahq/thunder/internal/verifhook"
 )
 
 // DefaultWaitInterval is the default WaitInterval for Func.
@@ -195,6 +196,7 @@ func (f *Func) Invoke(ctx context.Context, arg interface{}) (interface{}, error)
 		delete(bctx.pendingBatchGroups, fs)
 	}
 	bctx.mu.Unlock()
+	verifhook.Yield("batch.invoke.registered")
 
 	// Run the batchGroup if we created it. Otherwise, wait for the batchGroup to
 	// finish.
@@ -206,6 +208,7 @@ func (f *Func) Invoke(ctx context.Context, arg interface{}) (interface{}, error)
 		case <-timer.C: // Resolve after a timeout to bound latency.
 		case <-bg.maxSizeCh: // Resolve if we hit max batch size.
 		}
+		verifhook.Yield("batch.creator.triggered")
 
 		// Before we try and resolve, make sure noone will add to the group by
 		// deleting it from the pending groups.
@@ -216,6 +219,7 @@ func (f *Func) Invoke(ctx context.Context, arg interface{}) (interface{}, error)
 			delete(bctx.pendingBatchGroups, fs)
 		}
 		bctx.mu.Unlock()
+		verifhook.Yield("batch.creator.sealed")
 
 		// Check for the context being canceled.
 		if ctx.Err() == nil {
@@ -224,6 +228,7 @@ func (f *Func) Invoke(ctx context.Context, arg interface{}) (interface{}, error)
 			bg.err = ctx.Err()
 		}
 		// Make the result available.
+		verifhook.Yield("batch.creator.done")
 		close(bg.doneCh)
 
 	} else {
